@@ -672,6 +672,11 @@ def main():
             return
         write_if_changed("GenMadx.v", emit(m, r))
     except Unrecognised as e:
+        if "--json" not in sys.argv:
+            # never leave the tables of another tree behind: the development must not build against stale data
+            msg = str(e).replace("*)", "* )").replace("(*", "( *")
+            write_if_changed("GenMadx.v", "(* tools/py2v translator FAILED on the current source: " + msg + " *)\n"
+                             "Definition translator_failed_no_tables : bool := true.\n")
         fail("gen_madx: " + str(e))
 
 
